@@ -525,6 +525,28 @@ def run(report, p):
             r12.check(guarded, f, n, f"`{norm(par)[:70]}` in {f.name} runs on the main thread (the result callback reads it) and uses `{me}` ({strict}) without a test of it: self.{field} is None until the checker thread has its answer, and the join gives up after its time-out - with a server that answers late or never the expression raises TypeError and the finished command exits 1 with a traceback", construct=f"{f.name}: self.{field} used unguarded ({strict})")
     r12.check(True, None, None, "")
 
+    # ------------------------------------------------------------------ R20.13
+    r13 = report.rule(
+        "R20.13",
+        "the result callback runs once per command, invoked by click: no package code calls a result callback itself or registers it (or a wrapper of it) for a second "
+        "occasion (`ctx.call_on_close`, atexit, a finally block) - a second invocation joins the checker a second time (another second of delay with a silent server) "
+        "and prints the update notice twice",
+        2,
+    )
+    for cb in callbacks:
+        r13.instance(cb, cb.node, f"{cb.qual}")
+        for fq, f in sorted(p.funcs.items()):
+            for call, tg in p.calls[fq]:
+                if cb.qual in tg:
+                    r13.check(False, f, call, f"`{norm(call)[:50]}` in {f.name} invokes the result callback {cb.name} a second time: click has already run it after the command returned (a successful command leaves the context with Exit(0), so a hook that fires `when an exception is active` fires on success as well) - the update notice is printed twice and a silent update server delays termination by two join time-outs", construct=f"{f.name}: result callback invoked by package code")
+        for m in p.modules.values():
+            if m.name != cb.module.name:
+                continue
+            for n in ast.walk(m.tree):
+                if isinstance(n, ast.Call) and any(isinstance(a, ast.Name) and a.id == cb.name for a in n.args) and not (isinstance(n.func, ast.Attribute) and "result_callback" in n.func.attr):
+                    r13.check(False, None, n, f"`{norm(n)[:60]}` hands the result callback {cb.name} to another hook: it runs a second time", construct=f"{cb.name} registered a second time")
+    r13.check(True, None, None, "")
+
     # ------------------------------------------------------------------ R20.5
     r5 = report.rule("R20.5", "both CLI groups register an identical result callback and create the checker at import without joining", 2)
     dumps = {}
